@@ -247,6 +247,11 @@ def blocking_roles(f):
                     r["wt"] = wt[0]
                 if len(nt) == 1:
                     r["nt"] = nt[0]
+                elif not nt and any((blk.term.get("fn") or {}).get("name") in ("blocking_send", "blocking_recv") and "tokio::sync" in ((blk.term.get("fn") or {}).get("def") or "")
+                                    for b in f.family(d) for blk in b.calls()):
+                    # the no-timeout primitive was inlined into the `None` arm of the public function: the public function
+                    # itself plays that role (C17 O17.2 then requires the enqueue to sit under `timeout == None`)
+                    r["nt"] = d
                 out[fn["name"]] = r
         return out
     return _get(f, "blocking_roles", go)
